@@ -715,6 +715,12 @@ func (u *Unit) execReturn(st *State, x *ast.ReturnStmt) []*State {
 // ---------------------------------------------------------------------------
 // loops
 
+// havocEnt: a loop-head havoc of one heap array that came with an inferred frame (see havocLoopState).
+type havocEnt struct {
+	before string
+	idxs   []string
+}
+
 type loopHead struct {
 	st *State
 }
@@ -754,6 +760,26 @@ func (u *Unit) modifiedBy(st *State, run func(s *State) []*State) (vars map[type
 				var fixed []string
 				for steps := 0; cur != ov; steps++ {
 					ent, found := u.storeLog[cur]
+					if !found {
+						// an inner loop havocked this array with an inferred frame: it behaves like stores at the
+						// inner loop's fixed indices (and at objects allocated inside it)
+						if he, ok := u.havocLog[cur]; ok && steps <= 10000 {
+							bad := false
+							for _, idx := range he.idxs {
+								if u.allocN[idx] <= serial0 {
+									if hasFreshConst(idx, declN0) {
+										bad = true
+										break
+									}
+									fixed = append(fixed, idx)
+								}
+							}
+							if !bad {
+								cur = he.before
+								continue
+							}
+						}
+					}
 					if !found || steps > 10000 {
 						okFresh = false
 						break
@@ -877,6 +903,15 @@ func (u *Unit) havocLoopState(st *State, vars map[types.Object]bool, heaps map[s
 					}
 				}
 				st.assumeFact(fmt.Sprintf("(forall ((%s Int)) (! (=> %s (= (select %s %s) (select %s %s))) :pattern ((select %s %s))))", r, tAnd(conds...), st.heap[h], r, before, r, st.heap[h], r))
+				if u.havocLog == nil {
+					u.havocLog = map[string]havocEnt{}
+				}
+				var idxs []string
+				for idx := range seen {
+					idxs = append(idxs, idx)
+				}
+				sort.Strings(idxs)
+				u.havocLog[st.heap[h]] = havocEnt{before: before, idxs: idxs}
 			}
 		}
 	}
